@@ -483,6 +483,7 @@ package types
 //@ func (vs *ValidatorSet) ToProto() (r *kproto.ValidatorSet, err error)
 //@   for C14 C13
 //@   requires vs != nil ==> (forall i int :: 0 <= i && i < len(vs.Validators) ==> vs.Validators[i] != nil)
+//@   ensures [resultNonNil] err == nil ==> r != nil
 //@   ensures [membersCopied] err == nil && vs != nil && len(vs.Validators) > 0 ==> len(r.Validators) == len(vs.Validators) && (forall i int :: 0 <= i && i < len(vs.Validators) ==> r.Validators[i] != nil && r.Validators[i].VotingPower == vs.Validators[i].VotingPower && r.Validators[i].ProposerPriority == vs.Validators[i].ProposerPriority && content(r.Validators[i].Address) == content(vs.Validators[i].Address))
 //@   ensures [proposerAndTotalCopied] err == nil && vs != nil && len(vs.Validators) > 0 ==> r.Proposer != nil && r.Proposer.ProposerPriority == vs.Proposer.ProposerPriority && r.Proposer.VotingPower == vs.Proposer.VotingPower && content(r.Proposer.Address) == content(vs.Proposer.Address) && r.TotalVotingPower == vs.totalVotingPower
 //@   loop 1:
@@ -639,3 +640,22 @@ package types
 //@ func (blockID *BlockID) ToProto() (r kproto.BlockID)
 //@   for C13 C18
 //@   ensures [fieldsCopied] blockID != nil ==> len(r.Hash) == 32 && content(r.Hash) == content(blockID.Hash) && r.PartSetHeader.Total == blockID.PartsHeader.Total && len(r.PartSetHeader.Hash) == 32 && content(r.PartSetHeader.Hash) == content(blockID.PartsHeader.Hash)
+
+// ---------------------------------------------------------------- C14: the key of a validator-set record
+// ValidatorSet.Hash() is the record key. It is the Merkle root over Validator.Bytes(), which encodes the
+// address and the voting power only (validator.go: SimpleValidator{Address, VotingPower}).
+//@ spec func valsKey(vs *ValidatorSet) common.Hash
+//@ trusted func (vs *ValidatorSet) Hash() (r common.Hash)
+//@   ensures r == valsKey(vs)
+
+// GetProposer caches the proposer in the set and returns a copy; nothing else changes.
+//@ func (vs *ValidatorSet) findProposer() (r *Validator)
+//@   for C12 C18
+//@   requires vs != nil && (forall i int :: 0 <= i && i < len(vs.Validators) ==> vs.Validators[i] != nil)
+//@ func (vs *ValidatorSet) GetProposer() (proposer *Validator)
+//@   for C12 C18
+//@   requires vs != nil && (forall i int :: 0 <= i && i < len(vs.Validators) ==> vs.Validators[i] != nil)
+//@   modifies vs.Proposer
+//@   ensures len(vs.Validators) == 0 ==> proposer == nil
+// The sign bytes of a proposal are computed from the wire proposal; nothing is modified.
+//@ trusted func ProposalSignBytes(chainID string, p *kproto.Proposal) (r []byte)
